@@ -1,6 +1,7 @@
 import LyModel.Lyb.Chunk
 import LyModel.Lyb.Hash
 import LyModel.Lyb.Rev
+import LyModel.Lyb.TreeDrv
 /-! driver ops of component `lyb` (line protocol, see tools/README-dev.md and harness/wb_lyb.c) -/
 namespace LyModel.Lyb.Drv
 open LyModel LyModel.Lyb
@@ -39,6 +40,9 @@ def hexList (l : List Nat) : String := Hex.enc (l.map UInt8.ofNat)
 
 def handle (op : String) (args : List String) : String :=
   let P := Params.gen
+  match LyModel.LybTree.Drv.handle op args with
+  | some r => r
+  | none =>
   match op, args with
   | "chunk", [o] =>
     match parseOps o with
